@@ -25,7 +25,7 @@ import os
 
 from aioslsk import commands as C
 from aioslsk.events import (
-    ConnectionStateChangedEvent, SessionDestroyedEvent, SessionInitializedEvent)
+    ConnectionStateChangedEvent, ScanCompleteEvent, SessionDestroyedEvent, SessionInitializedEvent)
 from aioslsk.exceptions import InvalidSessionError
 from aioslsk.network.connection import ConnectionState, ServerConnection
 from aioslsk.protocol import messages as M
@@ -132,6 +132,12 @@ def draw_settings(rng):
     }
 
 
+def _burst_len(settings):
+    """Upper estimate of the number of frames the client sends on a fresh connection (Login included)."""
+    return (13 + len(settings['friends']) + len(settings['favorites']) + len(settings['liked'])
+            + len(settings['hated']))
+
+
 def draw_action(rng, state, login):
     if login in ('eof', 'rst'):
         # the login itself is the loss
@@ -158,7 +164,7 @@ def generate(rng, index, tier):
         state = rng.choice(['before_login', 'steady', 'steady'])
     plan = {
         'seed': rng.getrandbits(32), 'net': net, 'settings': settings, 'login': login, 'state': state,
-        'index': rng.randint(0, BURST_MAX_INDEX) if state == 'burst' else 0,
+        'index': rng.randint(0, min(BURST_MAX_INDEX, _burst_len(settings))) if state == 'burst' else 0,
         'trigger': rng.choice(['recv', 'write']) if state == 'burst' else 'recv',
         'delay': rng.choice([0.0, 0.0, 0.05, 0.3, 1.0, 5.0]),
         'pending': [], 'action': draw_action(rng, state, login), 'stop_after': None, 'server_omit': [],
@@ -168,6 +174,9 @@ def generate(rng, index, tier):
     loss_like = plan['action']['kind'] == 'loss' or (login in ('eof', 'rst') and plan['action']['kind'] == 'none')
     if loss_like and rng.random() < 0.25:
         plan['stop_after'] = rng.choice([0.2, 0.6, 1.0, 1.6, 2.5, 3.6, 6.0, 12.0])
+    if settings['shares'] and rng.random() < 0.4:
+        # slower executor: the start-up scan ends after the login, share counts are reported a second time
+        plan['exec'] = {'delay_ms': rng.choice([[5, 40], [20, 400]])}
     if rng.random() < 0.1:
         plan['server_omit'] = [rng.choice(['room_list', 'parent_min_speed', 'parent_speed_ratio', 'wishlist_interval'])]
     return plan
@@ -271,6 +280,10 @@ def simplify(plan):
         yield variant(net=dict(SIMPLE_NET))
     if plan.get('stop_after') is not None:
         yield variant(stop_after=None)
+    if plan.get('exec'):
+        p = copy.deepcopy(plan)
+        p.pop('exec')
+        yield p
     if plan.get('login') != 'accept':
         yield variant(login='accept')
     if plan.get('state') != 'steady':
@@ -455,6 +468,7 @@ def _run(world: World, plan):
     }
     conn_events = []        # (t, state name, reason name) of the server connection, as reported by the client
     session_events = []     # (t, 'init'|'destroy', session object)
+    scan_done = []          # instants at which a scan of the shared directories completed
 
     def on_event(event):
         if isinstance(event, ConnectionStateChangedEvent) and isinstance(event.connection, ServerConnection):
@@ -464,6 +478,8 @@ def _run(world: World, plan):
             session_events.append((loop.time(), 'init', event.session))
         elif isinstance(event, SessionDestroyedEvent):
             session_events.append((loop.time(), 'destroy', event.session))
+        elif isinstance(event, ScanCompleteEvent):
+            scan_done.append(loop.time())
     alice.recorder.hooks.append(on_event)
 
     def alice_sessions():
@@ -525,6 +541,8 @@ def _run(world: World, plan):
         return call.done
 
     async def wait_for(pred, bound, step=0.05):
+        if bound > 60.0:
+            step = max(step, 1.0)
         end = loop.time() + bound
         while not pred():
             if loop.time() >= end - EPS:
@@ -581,7 +599,14 @@ def _run(world: World, plan):
 
         stateful('SetListenPort', [want_clear, want_obf], lambda m: [m.port, m.obfuscated_port or 0])
         stateful('SetStatus', 2, lambda m: m.status)
-        stateful('SharedFoldersFiles', [want_folders, want_files], lambda m: [m.shared_folder_count, m.shared_file_count])
+        if scan_done and scan_done[0] <= cutoff - 2 * lat_max - EPS:
+            stateful('SharedFoldersFiles', [want_folders, want_files],
+                     lambda m: [m.shared_folder_count, m.shared_file_count])
+        else:
+            # the start-up scan is still running: the index is in flux, only the presence of a report is judged
+            world.probe('burst_checked_before_scan_end')
+            if not by_kind.get('SharedFoldersFiles'):
+                world.violate('C16.burst', kind='SharedFoldersFiles', diff='missing', at=tag)
         stateful('TogglePrivateRoomInvites', bool(s.get('invites')), lambda m: bool(m.enable))
         stateful('BranchLevel', 0, lambda m: m.level)
         stateful('BranchRoot', OWN, lambda m: m.username)
@@ -621,6 +646,9 @@ def _run(world: World, plan):
     # ------------------------------------------------------------------ clause (c)
     def check_reset(tag):
         facts = {'at': tag}
+        # the user table holds its entries weakly: drop the harness's own references to past events first, so
+        # that only what the library itself still holds is judged
+        del alice.recorder.events[:]
         if client.session is not None:
             world.violate('C16.reset', what='session', **facts)
         names = sorted(client.users.users)
